@@ -907,6 +907,7 @@ package leveldb
 //@   props C06 C01
 //@   abstract keys
 //@   safety off
+//@   inline
 //@   at before call (*sessionRecord).addTable#1
 //@     assert [C01,C06:record-carries-the-tables-own-number-size-and-bounds] arg0 == level && arg1 == t.fd.Num && arg2 == t.size && ikcmp(arg3, t.imin) == 0 && ikcmp(arg4, t.imax) == 0
 
@@ -914,7 +915,7 @@ package leveldb
 // overlaps the new table's user-key range: the new table stays disjoint from its level, and nothing older ends up
 // above it. That the levels below the top are sorted and disjoint is the induction hypothesis.
 //@ func (*version).pickMemdbLevel
-//@   props C06 C01
+//@   props C06
 //@   abstract keys
 //@   safety off
 //@   splitpaths
